@@ -34,20 +34,40 @@ func crashChild(dir string, size, n, killAt int) {
 	if err := t.AddSubscriber(s); err != nil {
 		panic(err)
 	}
+	// a second matching subscriber: there are synchronisation points between the two deliveries
+	s2 := mercure.NewLocalSubscriber("", zapNop(), store)
+	s2.SetTopics([]string{"t0"}, nil)
+	if err := t.AddSubscriber(s2); err != nil {
+		panic(err)
+	}
 	var mu sync.Mutex
 	say := func(line string) {
 		mu.Lock()
 		os.Stdout.WriteString(line + "\n")
 		mu.Unlock()
 	}
-	go func() {
-		for u := range s.Receive() {
-			say("deliver " + u.ID)
+	// what has been handed to the subscriber = what is in its channel: logged at every
+	// synchronisation point (so that nothing handed over before the kill goes unreported)
+	drainLog := func() {
+		for _, x := range []*mercure.LocalSubscriber{s, s2} {
+		loop:
+			for {
+				select {
+				case u, ok := <-x.Receive():
+					if !ok {
+						break loop
+					}
+					say("deliver " + u.ID)
+				default:
+					break loop
+				}
+			}
 		}
-	}()
+	}
 	count := 0
 	verifsched.OnYield = func(label string) {
 		count++
+		drainLog()
 		if count == killAt {
 			say(fmt.Sprintf("kill-before %s", label))
 			syscall.Kill(os.Getpid(), syscall.SIGKILL)
@@ -59,6 +79,7 @@ func crashChild(dir string, size, n, killAt int) {
 		if err := t.Dispatch(&mercure.Update{Topics: []string{"t0"}, Event: mercure.Event{ID: id, Data: strings.Repeat("x", 100)}}); err == nil {
 			say("ack " + id)
 		}
+		drainLog()
 	}
 	say(fmt.Sprintf("completed yields=%d", count))
 	syscall.Kill(os.Getpid(), syscall.SIGKILL) // no clean close either
@@ -171,8 +192,8 @@ func runCrashCase(c *h.Ctx, r *h.Report, cs crashCase) {
 	}
 
 	// model: the same sequential execution stopped after killAt-1 steps, then restart
-	lines := []string{h.Line("sys.new", "bolt", h.Itoa(cs.Size), "facts"), h.Line("sys.sub", "0", "-", "1000"), h.Line("sys.op", "add", "0"), "sys.runall", h.Line("sys.sub", "0", "-", "1000")}
-	// (runall clears threads; the subscriber list keeps index 0 registered; a dummy second sub keeps indices aligned)
+	lines := []string{h.Line("sys.new", "bolt", h.Itoa(cs.Size), "facts"), h.Line("sys.sub", "0", "-", "1000"), h.Line("sys.sub", "0", "-", "1000"),
+		h.Line("sys.op", "add", "0"), h.Line("sys.op", "add", "1"), "sys.runall"}
 	for i := 1; i <= cs.N; i++ {
 		lines = append(lines, h.Line("sys.op", "dispatch", h.Itoa(i), "0"))
 	}
@@ -218,8 +239,8 @@ func runCrash(c *h.Ctx, r *h.Report) {
 	}
 	var cases []crashCase
 	for _, size := range sizes {
-		// a publish is 9 synchronisation points (closed?, t.Lock, db.Update, sl.MatchAny, 5 of s.Dispatch)
-		for k := 1; k <= 9*n+2; k++ {
+		// a publish is 14 synchronisation points (closed?, t.Lock, db.Update, sl.MatchAny, 5 of s.Dispatch per subscriber)
+		for k := 1; k <= 14*n+2; k++ {
 			cases = append(cases, crashCase{Size: size, N: n, KillAt: k})
 		}
 	}
